@@ -320,8 +320,10 @@ def strings_contains(I, args, ins):
         for a in _atoms(s):
             if a[0] == 'c' and a[1] == p:
                 return True
-            if a[0] == 'b':
+            if a[0] == 'b' or (a[0] == 'pescb' and p in '&='):
                 conds.append(a[1] == ord(p))
+            if a[0] == 'pesc':
+                raise Inconclusive('Contains over a path-escaped opaque string')
             if a[0] == 'o':
                 t = str(a[1])
                 g = I.ctx.ghost
@@ -411,6 +413,11 @@ def strings_replace(I, args, ins):
     s, old, new = args[0], args[1], args[2]
     if isinstance(s, str) and isinstance(old, str) and isinstance(new, str):
         return s.replace(old, new)
+    if ins['call']['fn']['n'].endswith('ReplaceAll') or (len(args) > 3 and isinstance(args[3], int) and args[3] < 0):
+        from .httpstubs import rope_replace_all
+        r = rope_replace_all(I, s, old, new)
+        if r is not NotImplemented:
+            return r
     f = z3.Function('strings.ReplaceAll', z3.StringSort(), z3.StringSort(), z3.StringSort(), z3.StringSort())
     return f(zstr(s), zstr(old), zstr(new))
 
@@ -1105,6 +1112,15 @@ def unicode_isspace(I, args, ins):
 import re as _re
 
 REGEXP_CONTRACTS = {}   # pattern text -> handler(I, method, re_obj, args) for symbolic inputs
+REGEXP_FALLBACKS = []   # (pattern, subject) -> handler or None
+
+
+def regexp_fallback(pat, s):
+    for f in REGEXP_FALLBACKS:
+        h = f(pat, s)
+        if h is not None:
+            return h
+    return None
 
 
 @stub('regexp.MustCompile', 'regexp.Compile')
@@ -1140,7 +1156,7 @@ def regexp_replaceall(I, args, ins):
     s, repl = args[1], args[2]
     if isinstance(s, str) and isinstance(repl, str):
         return _go_re(pat).sub(repl.encode('latin-1').replace(b'\\', b'\\\\'), s.encode('latin-1')).decode('latin-1')
-    h = REGEXP_CONTRACTS.get(pat)
+    h = REGEXP_CONTRACTS.get(pat) or regexp_fallback(pat, s)
     if h is not None:
         return h(I, 'ReplaceAllString', args)
     if repl == '':
@@ -1163,7 +1179,7 @@ def regexp_findsubmatch(I, args, ins):
             return NIL_SLICE
         groups = [m.group(0)] + list(m.groups())
         return I.make_slice([(g.decode('latin-1') if g is not None else '') for g in groups])
-    h = REGEXP_CONTRACTS.get(pat)
+    h = REGEXP_CONTRACTS.get(pat) or regexp_fallback(pat, s)
     if h is not None:
         return h(I, 'FindStringSubmatch', args)
     raise Inconclusive('regexp %r has no symbolic contract for FindStringSubmatch' % pat)
@@ -1175,7 +1191,7 @@ def regexp_matchstring(I, args, ins):
     s = args[1]
     if isinstance(s, str):
         return _go_re(pat).search(s.encode('latin-1')) is not None
-    h = REGEXP_CONTRACTS.get(pat)
+    h = REGEXP_CONTRACTS.get(pat) or regexp_fallback(pat, s)
     if h is not None:
         return h(I, 'MatchString', args)
     f = z3.Function('re.match:' + pat, z3.StringSort(), z3.BoolSort())
